@@ -193,7 +193,7 @@ def instance_of(draw, schema, depth=0):
             if key in out and isinstance(dep, list):
                 for d in dep:
                     out.setdefault(d, draw(jv.scalars))
-        if "patternProperties" in s and draw(st.booleans()):
+        if s.get("patternProperties") and draw(st.booleans()):
             pat = draw(st.sampled_from(sorted(s["patternProperties"])))
             if pat in PATTERN_EXAMPLES:
                 key = draw(st.sampled_from(PATTERN_EXAMPLES[pat][0]))
